@@ -30,7 +30,7 @@ ASSUME = [
 ]
 CFG = H.CFG
 MAX_PROOF_BYTES = 30000
-STACKS = ['basic', 'stateful', 'counting', 'serializing', 'pretty', 'memo-stateful', 'memo-serializing', 'memo-pretty-analysis',
+STACKS = ['basic', 'stateful', 'counting', 'serializing', 'pretty', 'memo-stateful', 'memo-serializing', 'memo-pretty-analysis', 'memo-serializing-analysis',
           'instopt-stateful', 'memo-instopt-serializing', 'instopt-memo-stateful']
 
 
@@ -76,6 +76,7 @@ def make_stack(kind, claims_pats, memo_set, pretty_options=None):
     elif kind == 'memo-stateful': it = MemoizingInterpreter(StatefulInterpreter(G, claims), set(memo_set))
     elif kind == 'memo-serializing': it = MemoizingInterpreter(ser(), set(memo_set))
     elif kind == 'memo-pretty-analysis': it = MemoizingInterpreter(pretty(), set(memo_set))
+    elif kind == 'memo-serializing-analysis': it = MemoizingInterpreter(ser(), set(memo_set))   # what serialize(optimize=True) runs
     elif kind == 'instopt-stateful': it = InstantiationOptimizer(StatefulInterpreter(G, claims))
     elif kind == 'memo-instopt-serializing': it = MemoizingInterpreter(InstantiationOptimizer(ser()), set(memo_set))
     elif kind == 'instopt-memo-stateful': it = InstantiationOptimizer(MemoizingInterpreter(StatefulInterpreter(G, claims), set(memo_set)))
@@ -268,7 +269,7 @@ def prepare_thunks(c):
 
 def run_thunks(c, kind, prepared):
     module, final, advertised, memo_all = prepared
-    memo_set = memo_all if kind == 'memo-pretty-analysis' else set(pick_memo(sorted(memo_all, key=str), c['memo_pick']))
+    memo_set = memo_all if kind.endswith('-analysis') else set(pick_memo(sorted(memo_all, key=str), c['memo_pick']))
     it, sinks = make_stack(kind, module._claims, memo_set, module.pretty_options())
     try:
         module.execute_gamma_phase(it)
